@@ -257,6 +257,9 @@ func (cl *compiler) compileForStmt(stmt *ast.ForStmt) {
 }
 
 func (cl *compiler) compileIfStmt(stmt *ast.IfStmt) {
+	if stmt.Init != nil {
+		panic(cl.errorf(stmt.Init, "can't compile if statements with an init statement yet"))
+	}
 	if stmt.Else == nil {
 		labelEnd := cl.newLabel()
 		cl.compileExpr(stmt.Cond)
